@@ -31,7 +31,6 @@ SRC = vlib.VERIF / "puppets" / "c18"
 SCRATCH = vlib.WORK / "c18"
 RUSTC = ["rustc", "+1.89", "--edition", "2021", "-g"]
 INVS = ("RefSane", "InstalledAtTrueAddress", "ActiveWhenMapped", "SharedLibsAreMapped", "StopsWhereRequested", "NeverLost")
-ARG_LINES = {"lib_add": ("a", "b"), "lib_inner": ("x",)}
 
 
 # ------------------------------------------------------------------------------------------------
@@ -102,40 +101,55 @@ def _facts(obj, srcfile, fns, crate):
     return res
 
 
+LIB_BASE = {0: None, 60: 0x20000000}      # model link base of lib -> -Ttext-segment of the real cdylib (None: default, 0)
+
+
 def build_puppets():
+    """{model link base of the library: {"lib", "exes", "facts"}}: the library exists as an ordinary shared object
+    and as one linked at a non-zero base; the start-up executables are linked against (rpath) each of them."""
     ver = vlib.sh(["rustc", "+1.89", "-vV"])[1]
     h = hashlib.sha1(b"".join((SRC / n).read_bytes() for n in ("lib1.rs", "c18s.rs", "c18d.rs")) + ver.encode()
-                     + " ".join(RUSTC).encode() + b"v2").hexdigest()[:12]
+                     + " ".join(RUSTC).encode() + repr(sorted(LIB_BASE.items())).encode() + b"v3").hexdigest()[:12]
     d = vlib.PUPPET_BUILD / f"c18-{h}"
+    np = ["-C", "relocation-model=static", "-C", "link-arg=-no-pie"]
     if not (d / "ok").exists():
         tmp = vlib.PUPPET_BUILD / f"c18-{h}.tmp{os.getpid()}"
-        tmp.mkdir(parents=True, exist_ok=True)
-        # the rpath must name the final directory
-        np = ["-C", "relocation-model=static", "-C", "link-arg=-no-pie"]
-        link = ["-L", str(tmp), "-C", f"link-arg=-Wl,-rpath,{d}"]
-        vlib.sh(RUSTC + ["--crate-type", "cdylib", "--crate-name", "lib1", "-o", str(tmp / "liblib1.so"), str(SRC / "lib1.rs")], timeout=300)
-        vlib.sh(RUSTC + link + ["-o", str(tmp / "c18s"), str(SRC / "c18s.rs")], timeout=300)
-        vlib.sh(RUSTC + np + link + ["--crate-name", "c18s", "-o", str(tmp / "c18s_np"), str(SRC / "c18s.rs")], timeout=300)
-        vlib.sh(RUSTC + ["-o", str(tmp / "c18d"), str(SRC / "c18d.rs")], timeout=300)
-        vlib.sh(RUSTC + np + ["--crate-name", "c18d", "-o", str(tmp / "c18d_np"), str(SRC / "c18d.rs")], timeout=300)
+        for mb, seg in LIB_BASE.items():
+            t, fin = tmp / f"b{mb}", d / f"b{mb}"
+            t.mkdir(parents=True, exist_ok=True)
+            # the rpath must name the final directory
+            link = ["-L", str(t), "-C", f"link-arg=-Wl,-rpath,{fin}"]
+            base = ["-C", f"link-arg=-Wl,-Ttext-segment={seg:#x}"] if seg else []
+            vlib.sh(RUSTC + base + ["--crate-type", "cdylib", "--crate-name", "lib1", "-o", str(t / "liblib1.so"), str(SRC / "lib1.rs")], timeout=300)
+            vlib.sh(RUSTC + link + ["-o", str(t / "c18s"), str(SRC / "c18s.rs")], timeout=300)
+            vlib.sh(RUSTC + np + link + ["--crate-name", "c18s", "-o", str(t / "c18s_np"), str(SRC / "c18s.rs")], timeout=300)
+            vlib.sh(RUSTC + ["-o", str(t / "c18d"), str(SRC / "c18d.rs")], timeout=300)
+            vlib.sh(RUSTC + np + ["--crate-name", "c18d", "-o", str(t / "c18d_np"), str(SRC / "c18d.rs")], timeout=300)
         (tmp / "ok").write_text("ok")
         try:
             os.rename(tmp, d)
         except OSError:
             vlib.sh(["rm", "-rf", str(tmp)])
-    lib = d / "liblib1.so"
-    P = {"dir": str(d), "lib": str(lib), "exes": {}, "facts": {}}
     exefns = ["stage_pre", "stage_mid", "stage_closed", "stage_reopened"]
-    P["facts"]["lib"] = _facts(lib, SRC / "lib1.rs", ["lib_add", "lib_inner"], "lib1")
-    for lm, stem in (("startup", "c18s"), ("dlopen", "c18d")):
-        for em, suf in (("pie", ""), ("nopie", "_np")):
-            exe = d / (stem + suf)
-            P["exes"][(em, lm)] = str(exe)
-            P["facts"][(em, lm)] = _facts(exe, SRC / f"{stem}.rs", exefns, stem)
-            kind = vlib.sh(["readelf", "-h", str(exe)])[1]
-            if ("DYN" in kind) != (em == "pie"):
-                raise vlib.ToolError(f"{exe}: link mode is not {em}")
-    return P
+    PP = {}
+    for mb, seg in LIB_BASE.items():
+        dd = d / f"b{mb}"
+        lib = dd / "liblib1.so"
+        P = {"dir": str(dd), "lib": str(lib), "exes": {}, "facts": {}, "link_base": seg or 0}
+        P["facts"]["lib"] = _facts(lib, SRC / "lib1.rs", ["lib_add", "lib_inner"], "lib1")
+        lo = min(int(l.split()[2], 16) for l in vlib.sh(["readelf", "-lW", str(lib)])[1].splitlines() if l.strip().startswith("LOAD"))
+        if lo != (seg or 0) or not all(lo <= f["lo"] < lo + 0x1000000 for f in P["facts"]["lib"].values()):
+            raise vlib.ToolError(f"{lib}: lowest PT_LOAD vaddr {lo:#x}, wanted {seg or 0:#x} (the linker ignored -Ttext-segment?)")
+        for lm, stem in (("startup", "c18s"), ("dlopen", "c18d")):
+            for em, suf in (("pie", ""), ("nopie", "_np")):
+                exe = dd / (stem + suf)
+                P["exes"][(em, lm)] = str(exe)
+                P["facts"][(em, lm)] = _facts(exe, SRC / f"{stem}.rs", exefns, stem)
+                kind = vlib.sh(["readelf", "-h", str(exe)])[1]
+                if ("DYN" in kind) != (em == "pie"):
+                    raise vlib.ToolError(f"{exe}: link mode is not {em}")
+        PP[mb] = P
+    return PP
 
 
 def probe_lib_bias(P, em, lm):
@@ -158,7 +172,7 @@ def probe_lib_bias(P, em, lm):
             starts = [int(l.split("-")[0], 16) for l in maps.splitlines() if l.rstrip().endswith("liblib1.so")]
             parked = Path(f"/proc/{p.pid}/syscall").read_text().startswith("0 ")
             if starts and parked:
-                return min(starts)
+                return min(starts) - P["link_base"]       # bias = mapping start - lowest PT_LOAD vaddr
     finally:
         p.kill()
         p.wait()
@@ -177,13 +191,13 @@ def _tlc(cfg, workers, timeout=1500, coverage=False, name=None, **kw):
 def run_tlc(tier):
     thorough = tier == "thorough"
     if not thorough:
-        # launched sessions exhaustively; sessions to replay: seeded random behaviours of the same module
-        jobs = {"Reloc_Fq.cfg": dict(workers=4),
-                "Reloc_G.cfg": dict(workers=1, simulate=1500, depth=60, seed_arg=vlib.seed())}
+        # launched sessions exhaustively; sessions to replay: two small exhaustive generation runs (every session with
+        # one request; every session with a line anchor in the executable + one library request at any prompt)
+        jobs = {"Reloc_Fq.cfg": dict(workers=4), "Reloc_G1.cfg": dict(workers=1), "Reloc_G2.cfg": dict(workers=1)}
     else:
         jobs = {"Reloc_F.cfg": dict(workers=4), "Reloc_G.cfg": dict(workers=1)}
         jobs.update({"Reloc_GA.cfg": dict(workers=1),
-                     "Reloc_W_offset.cfg": dict(workers=2), "Reloc_W_reload.cfg": dict(workers=2),
+                     "Reloc_W_offset.cfg": dict(workers=2), "Reloc_W_libbase.cfg": dict(workers=2), "Reloc_W_reload.cfg": dict(workers=2),
                      "Reloc_W_early.cfg": dict(workers=2), "Reloc_W_attach.cfg": dict(workers=2),
                      "Reloc_Fcov.cfg#cov": dict(workers=4, coverage=True)})
     res = {}
@@ -198,7 +212,7 @@ def run_tlc(tier):
             res[k] = r
         vlib.log("[c18] TLC outputs taken from", cache)
     else:
-        with ThreadPoolExecutor(max_workers=2) as ex:
+        with ThreadPoolExecutor(max_workers=3) as ex:
             futs = {k: ex.submit(_tlc, k.split("#")[0], name=k.replace("#", "-").replace(".cfg", ""), **kw) for k, kw in jobs.items()}
             for k, f in futs.items():
                 res[k] = f.result()
@@ -222,7 +236,7 @@ def run_tlc(tier):
 
 def scenarios(res):
     out = []
-    for k in ("Reloc_G.cfg", "Reloc_GA.cfg"):
+    for k in ("Reloc_G.cfg", "Reloc_G1.cfg", "Reloc_G2.cfg", "Reloc_GA.cfg"):
         if k in res:
             s = vlib.printed(res[k].out, "SCN")
             if not s or any(not isinstance(x, dict) for x in s):
@@ -252,7 +266,7 @@ def annotate(scn):
             elif t != "before_start" and lm == "startup":
                 t = "after_load"
             st["timing"] = t
-            feats.append((scn["cfg"]["exe"], lm, sess, st["kind"], st["obj"], t))
+            feats.append((scn["cfg"]["exe"], lm, sess, st["kind"], st["obj"], t, scn["cfg"]["lbase"] if st["obj"] == "lib" else 0))
         else:
             stop = st["stop"]
             if stop and stop[0] != "exit":
@@ -271,37 +285,45 @@ def select(scns, tier, seed):
     pool = [annotate(s) for s in scns]
     rnd.shuffle(pool)
     if tier == "quick":
-        # timing of exe requests and the non-PIE twin of every library timing add little: coarser features
+        # full kind x timing product only for the ordinary library under the PIE executable; the executable's own
+        # requests, the library linked at a non-zero base and the non-PIE twin are covered per kind and per timing
         def proj(f):
-            em, lm, sess, kind, obj, t = f
-            return (em, lm, sess, kind, obj, t) if em == "pie" else (em, lm, sess, kind, obj, "*")
+            em, lm, sess, kind, obj, t, lb = f
+            if em != "pie":
+                return [(em, lm, kind)]
+            if obj == "lib" and lb == 0:
+                return [f]
+            return [(em, obj, lm if obj == "lib" else "*", lb, "kind", kind), (em, obj, lm if obj == "lib" else "*", lb, "timing", t)]
     else:
         def proj(f):
-            return f
+            return [f]
+    def fs(sc):
+        return {x for f in sc["features"] for x in proj(f)}
     need = set()
     for s in pool:
-        need |= {proj(f) for f in s["features"]}
+        need |= fs(s)
     chosen = []
     # longest sessions first: they see more prompts
     pool.sort(key=lambda s: -len(s["steps"]))
     while need:
         best, gain = None, 0
         for s in pool:
-            g = len({proj(f) for f in s["features"]} & need)
+            g = len(fs(s) & need)
             if g > gain:
                 best, gain = s, g
         if best is None:
             break
         chosen.append(best)
-        need -= {proj(f) for f in best["features"]}
+        need -= fs(best)
     return chosen
 
 
 # ------------------------------------------------------------------------------------------------
 # concretisation + replay
 # ------------------------------------------------------------------------------------------------
-def concretize(scn, P, guess):
+def concretize(scn, PP, guess):
     em, lm, sess = scn["cfg"]["exe"], scn["cfg"]["lib"], scn["cfg"]["sess"]
+    P = PP[scn["cfg"]["lbase"]]
     exe = P["exes"][(em, lm)]
     stem = Path(exe).name.replace("_np", "")
     steps = []
@@ -322,7 +344,7 @@ def concretize(scn, P, guess):
             if st["mapped"]:
                 c.update(obj=path, link=facts["ln"])           # the user reads the load address from the maps now
             else:
-                g = guess[(em, lm, o)]
+                g = guess[(scn["cfg"]["lbase"], em, lm, o)]
                 c["addr"] = g + facts["ln"]                     # the user's guess (verified at every later prompt)
                 c["guess_bias"], c["guess_obj"] = g, o
         steps.append(c)
@@ -353,8 +375,8 @@ def run_scn(drv, scn, P, guess, tag, timeout=90):
 # comparison: real observations vs the reference's expectations
 # ------------------------------------------------------------------------------------------------
 class Cmp:
-    def __init__(self, rep, P):
-        self.rep, self.P = rep, P
+    def __init__(self, rep, PP):
+        self.rep, self.PP, self.P = rep, PP, None
         self.compared = 0          # prompts compared
         self.sessions = 0
         self.inconclusive = 0
@@ -371,7 +393,7 @@ class Cmp:
             return
         seen.add((cls, action))
         c = scn["cfg"]
-        self.rep.mismatch(cls, action, exe=c["exe"], lib=c["lib"], sess=c["sess"],
+        self.rep.mismatch(cls, action, exe=c["exe"], lib=c["lib"], sess=c["sess"], lib_link_base=self.P["link_base"],
                           script={k: scn[k] for k in ("cfg", "steps", "id")}, **kw)
 
     def facts(self, scn, obj, fn):
@@ -380,6 +402,7 @@ class Cmp:
 
     def run(self, scn, out):
         c = scn["cfg"]
+        self.P = self.PP[c["lbase"]]
         exe_path = self.P["exes"][(c["exe"], c["lib"])]
         paths = {"exe": exe_path, "lib": self.P["lib"]}
         recs = [r for r in out["records"] if r.get("ev") == "obs" and r["k"] >= 0]
@@ -407,7 +430,7 @@ class Cmp:
             objs = {o["path"]: o for o in a.get("objects", [])}
             bias = {n: objs[p]["bias"] for n, p in paths.items() if p in objs}
             for n, b in bias.items():
-                self.biases.setdefault((c["exe"], c["sess"] != "launch", n), set()).add(b)
+                self.biases.setdefault((c["exe"], c["sess"] != "launch", n if n == "exe" or not c["lbase"] else "lib@base"), set()).add(b)
             action = st["op"] if st["op"] != "req" else f"break_{st['kind']}"
             kw = dict(step=k)
 
@@ -549,9 +572,9 @@ class Cmp:
                 for p, l in listed.items():
                     if l["from"] != mapped[p]["start"]:
                         self.bad(scn, seen, "shared_libs_range_wrong", action, expected=mapped[p]["start"], actual=l, **kw)
-            if len(self.samples) < 5 and stop["obj"] == "lib" and not seen:
+            if stop["obj"] == "lib" and not seen and (len(self.samples) < 3 or (c["lbase"] and len([x for x in self.samples if x["cfg"]["lbase"]]) < 3)):
                 self.samples.append({"cfg": c, "step": k, "expected_stop": {x: stop[x] for x in ("obj", "fn", "v", "call")},
-                                     "real_rip": a["rip"], "lib_bias": bias.get("lib"), "exe_bias": bias.get("exe"),
+                                     "real_rip": a["rip"], "lib_bias": bias.get("lib"), "exe_bias": bias.get("exe"), "lib_link_base": self.P["link_base"],
                                      "backtrace": [fr["fn"] for fr in a.get("bt", [])][:3], "args": a.get("args"),
                                      "shared_libs": sorted(Path(p).name for p in listed)})
         if not guess_ok:
@@ -571,8 +594,9 @@ def run(rep, tier, replay):
     guess = {}
     for em in ("pie", "nopie"):
         for lm in ("startup", "dlopen"):
-            guess[(em, lm, "exe")] = 0x555555554000 if em == "pie" else 0
-            guess[(em, lm, "lib")] = probe_lib_bias(P, em, lm)
+            for mb in P:
+                guess[(mb, em, lm, "exe")] = 0x555555554000 if em == "pie" else 0
+                guess[(mb, em, lm, "lib")] = probe_lib_bias(P[mb], em, lm)
     if replay:
         rec = json.loads(Path(replay).read_text())
         scn = annotate(rec["script"])
@@ -593,13 +617,23 @@ def run(rep, tier, replay):
                        and st["stop"][0]["call"] == 2 and s["cfg"]["lib"] == "dlopen") \
             or not has(lambda s, st: s["cfg"]["exe"] == "nopie") or not has(lambda s, st: s["cfg"]["lib"] == "startup"):
         raise vlib.ToolError("vacuous selection: no deferred request / no stop after a reload / no non-PIE / no start-up library session")
+    # ... and the same for the library linked at a non-zero base: start-up linked + dlopen, requested before the load
+    # (deferred) and after it, with a stop inside the library owed
+    def based(lm, timings):
+        return any(s["cfg"]["lbase"] != 0 and s["cfg"]["exe"] == "pie" and s["cfg"]["lib"] == lm
+                   and any(st["op"] == "req" and st["obj"] == "lib" and st["timing"] in timings for st in s["steps"])
+                   and any(st["op"] != "req" and st["stop"] and st["stop"][0] != "exit" and st["stop"][0]["obj"] == "lib" for st in s["steps"])
+                   for s in chosen)
+    if not (based("startup", ("before_start",)) and based("startup", ("after_load",))
+            and based("dlopen", ("before_start", "before_load")) and based("dlopen", ("after_load",))):
+        raise vlib.ToolError("vacuous selection: the library linked at a non-zero base is not covered (start-up/dlopen x before/after load)")
     t1 = time.time()
     vlib.log(f"[c18] TLC done {t1 - rep.t0:.0f}s; {len(scns)} sessions printed, {len(chosen)} selected")
     # attached sessions use the real ASLR: run them twice in thorough so that different biases are seen
     jobs = [(s, f"{s['id']}") for s in chosen]
     if tier == "thorough":
         jobs += [(s, f"{s['id']}-b") for s in chosen if s["cfg"]["sess"] != "launch"]
-    with ThreadPoolExecutor(max_workers=6) as ex:
+    with ThreadPoolExecutor(max_workers=8) as ex:
         outs = list(ex.map(lambda j: run_scn(drv, j[0], P, guess, j[1]), jobs))
     vlib.log(f"[c18] replay done {time.time() - t1:.0f}s")
     for (s, _), o in zip(jobs, outs):
@@ -607,8 +641,14 @@ def run(rep, tier, replay):
     if cmp.inconclusive > len(jobs) // 3:
         raise vlib.ToolError(f"{cmp.inconclusive} of {len(jobs)} sessions inconclusive (guessed load address was wrong)")
     aslr = {f"{k[0]}:{'attach' if k[1] else 'launch'}:{k[2]}": sorted(hex(b) for b in v)[:6] for k, v in cmp.biases.items()}
-    pred = {k: r.violated for k, r in res.items() if k.startswith("Reloc_W_")}
+    # Reloc_W_offset / _libbase are model mutants (mapping-offset slips the code does not contain any more / never
+    # contained): TLC must still tell them from the reference; the other Reloc_W_* are predictions about the code
+    MUT = ("Reloc_W_offset.cfg", "Reloc_W_libbase.cfg")
+    pred = {k: r.violated for k, r in res.items() if k.startswith("Reloc_W_") and k not in MUT}
+    mmut = {k: r.violated for k, r in res.items() if k in MUT}
     if tier == "thorough":
+        if not all(mmut.values()):
+            raise vlib.ToolError(f"the model does not distinguish the mapping-offset slips from the reference: {mmut}")
         missing = [k for k, v in pred.items() if not v]
         if missing:
             vlib.log(f"MODEL-DRIFT: the as-written rules {missing} no longer produce a counterexample in Reloc.tla")
@@ -626,6 +666,7 @@ def run(rep, tier, replay):
         "compared_by_kind": cmp.counts,
         "load_biases_seen": aslr,
         "model_predictions": pred,
+        "model_mutants_detected": mmut,
         "exhaustive": True,
     }
     return rep.finish("model_checking", cov, assumptions=[
